@@ -739,7 +739,7 @@ class Taylor3D(object):
     def __radd__(self, other):
         """Add a set of Taylor expansions"""
         # note: sum(), without a start value, uses 0, which then will call __radd__:
-        if other == 0: return self.copy()
+        if isinstance(other, Number) and other == 0: return self.copy()
         # if we're passed an array, just take it in stride
         if hasattr(other, 'shape'): other = [(0, 0, other.reshape((1,) + other.shape))]
         return type(self)(self.sumcoeff(self, other))
